@@ -255,6 +255,65 @@ pub fn families() -> Vec<Box<dyn Family>> {
             },
         ),
         family(
+            "coarse_hash_items",
+            "Myers only needs PartialEq: near-identical inputs (2000..20000 items, <= 3 edits) of an item type whose legal Hash is COARSE (only value % 3 is hashed) through algorithms::diff, diff_slices and capture_diff_slices - the work must not depend on how well the items hash (Patience is not run here: its unique-item table legitimately hashes the items)",
+            false,
+            1,
+            |cfg| if cfg.tiny { 1 } else { cfg.tier.pick(6, 40) },
+            |idx, cfg, out| {
+                use crate::mon::CoarseHashElem;
+                let mut rng = Rng::for_case(cfg.seed, "c19.coarse_hash", idx);
+                let n = if cfg.tiny { 12 } else { rng.range(2000, cfg.tier.pick(8000, 20_000)) };
+                let a: Vec<CoarseHashElem> = (0..n as u64).map(CoarseHashElem).collect();
+                let mut b = a.clone();
+                for _ in 0..1 + rng.below(3) {
+                    let i = rng.below(b.len());
+                    match rng.below(3) {
+                        0 => b[i] = CoarseHashElem(1_000_000 + i as u64),
+                        1 => {
+                            b.remove(i);
+                        }
+                        _ => b.insert(i, CoarseHashElem(2_000_000 + i as u64)),
+                    }
+                }
+                out.sample(|| format!("N={} M={} items hashing to 3 buckets", a.len(), b.len()));
+                out.nontrivial(&("coarse", n, idx));
+                out.count("coarse_hash_cases");
+                for entry in 0..3 {
+                    cmp_reset();
+                    out.eval();
+                    let r = guard(|| match entry {
+                        0 => {
+                            let mut c = similar::algorithms::Capture::new();
+                            similar::algorithms::diff(Algorithm::Myers, &mut c, &a[..], 0..a.len(), &b[..], 0..b.len()).unwrap();
+                            c.into_ops()
+                        }
+                        1 => {
+                            let mut c = similar::algorithms::Capture::new();
+                            similar::algorithms::diff_slices(Algorithm::Myers, &mut c, &a[..], &b[..]).unwrap();
+                            c.into_ops()
+                        }
+                        _ => similar::capture_diff_slices(Algorithm::Myers, &a[..], &b[..]),
+                    });
+                    let cmps = cmp_count();
+                    let name = ["algorithms::diff", "algorithms::diff_slices", "capture_diff_slices"][entry];
+                    match r {
+                        Err(p) => out.violation("panic", format!("{} panicked: {}", name, p)),
+                        Ok(ops) => {
+                            let d: u64 = ops.iter().map(|op| if op.tag() == similar::DiffTag::Equal { 0 } else { (op.old_range().len() + op.new_range().len()) as u64 }).sum();
+                            let (n, m) = (a.len() as u64, b.len() as u64);
+                            let bound = FACTOR.saturating_mul(n + m + 1).saturating_mul(d + 1);
+                            out.max("comparisons_per_(N+M+1)(D+1).myers.coarse_hash_items", cmps as f64 / ((n + m + 1) * (d + 1)) as f64);
+                            out.count_n("comparisons_counted", cmps);
+                            if cmps > bound {
+                                out.violation("work.exceeds_bound", format!("{} with Myers: {} comparisons for N={} M={} D={}: more than {}*(N+M+1)*(D+1) = {} | items hash to 3 buckets only (legal), Myers needs no hashing", name, cmps, n, m, d, FACTOR, bound));
+                            }
+                        }
+                    }
+                }
+            },
+        ),
+        family(
             "big",
             "G-BIG: 9 structured families (near-identical with <= 5 edits, block move, periodic with phase shift, every item doubled, truncation, unrelated (capped 400x400), small alphabet, change only at the very start/end, random) with up to 4000 (quick) / 20000 (thorough) items x {Myers, Patience}; items count PartialEq calls; D = size of the script reported in that very run; violation: comparisons > 8*(N+M+1)*(D+1); non-trivial = N+M >= 200",
             false,
